@@ -3,6 +3,9 @@ namespace MaddyVerif.Expect.FuncSkelC02
 
 /-- (declaration, fingerprint of its normalised text): comments, layout, local names and log/trace statements do not count -/
 def funcs : List (String × String) := [
+  ("internal/target/queue/queue.go:Queue.deliver", "f9c76cc6fc51885f"),
+  ("internal/target/queue/queue.go:Queue.dispatch", "b74f41bd2cc3ee79"),
+  ("internal/target/queue/queue.go:Queue.emitDSN", "1e8fbe65a4db35c1"),
   ("internal/target/queue/queue.go:Queue.openMessage", "e860a325c84bd4f8"),
   ("internal/target/queue/queue.go:Queue.readDiskQueue", "d542914f9b1ab176"),
   ("internal/target/queue/queue.go:Queue.removeFromDisk", "1d3b0d430214cab6"),
